@@ -132,6 +132,15 @@ func (ex *Exec) callVal(st *State, site string, c *ssa.CallCommon, fnv Val, args
 			ex.callFuncType(st, site, ft, fnv, args, k)
 			return
 		}
+		if fo, ok := fnv.Meta.(guardOrigin); ok && fo.root != nil {
+			if n, ok := types.Unalias(fo.root).(*types.Named); ok && n.Obj().Pkg() != nil {
+				if ct := ex.w.contracts[n.Obj().Pkg().Path()+".fieldfunc:"+n.Obj().Name()+"."+fo.path]; ct != nil {
+					ex.record(st, ex.rootName+"/nilfunc@"+site, "safety", not(eq(fnv.T, "0")), "call of a nil function value")
+					ex.callBySignature(st, site, ct, fnv.Typ.Underlying().(*types.Signature), fnv, args, k, false)
+					return
+				}
+			}
+		}
 		panic(subsetErr{"call through a symbolic function value at " + site})
 	}
 	if fnv.Fn == nil {
@@ -181,10 +190,22 @@ func (ex *Exec) callFn(st *State, site string, fn *ssa.Function, args []Val, bin
 func (ex *Exec) invoke(st *State, site string, c *ssa.CallCommon, recv Val, args []Val, k func(*State, Val)) {
 	it := c.Value.Type()
 	key := types.TypeString(it, nil) + "." + c.Method.Name()
+	if _, ok := ex.w.ifaceExterns[key]; !ok {
+		key = types.TypeString(types.Unalias(it), nil) + "." + c.Method.Name()
+	}
 	if h, ok := ex.w.ifaceExterns[key]; ok {
 		ex.externs["iface:"+key] = true
 		h(ex, st, &callCtx{site: site, args: append([]Val{recv}, args...), k: k, method: c.Method})
 		return
+	}
+	// contract of the interface method (`ifacemethod Iface.Method` in the interface's package)
+	if n, ok := types.Unalias(it).(*types.Named); ok && n.Obj().Pkg() != nil {
+		if ct := ex.w.contracts[n.Obj().Pkg().Path()+".iface:"+n.Obj().Name()+"."+c.Method.Name()]; ct != nil {
+			ex.nilCheckTerm(st, recv.T, site)
+			sig := c.Method.Type().(*types.Signature)
+			ex.callBySignature(st, site, ct, sig, recv, args, k, false)
+			return
+		}
 	}
 	// unique implementation inside the module?
 	if impl := ex.w.uniqueImpl(it, c.Method); impl != nil {
@@ -382,6 +403,11 @@ func matchRegion(pat, name string) bool {
 // havocModifies havocs what the callee may modify; everything else (of objects allocated before
 // the call) keeps its value.
 func (ex *Exec) havocModifies(st *State, ct *Contract, e *env, pre map[string]string) {
+	if ct.hasMod && len(ct.modifies) == 0 && !ct.allocates {
+		// `modifies nothing` without `allocates`: a pure function as far as the caller can observe (objects it may
+		// allocate internally are unreachable from the caller's state)
+		return
+	}
 	targets := ex.modTargets(st, ct, e)
 	a0 := st.region("A", arr("Int", "Bool"))
 	// materialise regions named in targets even if untouched so far
@@ -1021,14 +1047,21 @@ func (ex *Exec) selectStmt(st *State, in *ssa.Select, k func(*State, Val)) {
 // recorded in the ghost trace cb (arguments, result); the callee may do anything its contract allows.
 func (ex *Exec) callFuncType(st *State, site string, ct *Contract, fnv Val, args []Val, k func(*State, Val)) {
 	ex.record(st, ex.rootName+"/nilfunc@"+site, "safety", not(eq(fnv.T, "0")), "call of a nil function value")
-	sig := fnv.Typ.Underlying().(*types.Signature)
-	e := &env{vars: map[string]Val{}}
+	ex.callBySignature(st, site, ct, fnv.Typ.Underlying().(*types.Signature), fnv, args, k, true)
+}
+
+// callBySignature applies a contract attached to a signature (function type, interface method, function-valued field).
+func (ex *Exec) callBySignature(st *State, site string, ct *Contract, sig *types.Signature, fnv Val, args []Val, k func(*State, Val), trace bool) {
+	e := &env{vars: map[string]Val{"self": fnv}}
 	for i := 0; i < sig.Params().Len() && i < len(args); i++ {
 		e.vars[sig.Params().At(i).Name()] = args[i]
 		e.vars["arg"+strconv.Itoa(i)] = args[i]
 	}
 	for _, r := range ct.requires {
 		ex.record(st, fmt.Sprintf("%s/pre:functype@%s:%s", ex.rootName, site, r.label), "requires", ex.evalBool(st, r.expr, e), r.src)
+	}
+	if i := strings.LastIndex(ct.short, ":"); i >= 0 {
+		ex.assertAt(st, ct.short[i+1:], e.vars)
 	}
 	if !st.dry && ex.contract != nil && ex.contract.blocksCancellable {
 		ex.blocking = append(ex.blocking, blockingOp{Site: site, Kind: "call", Cancellable: ct.blocksCancellable, Note: "call through a function value of type " + ct.short, Chan: ct.short})
@@ -1045,8 +1078,20 @@ func (ex *Exec) callFuncType(st *State, site string, ct *Contract, fnv Val, args
 		res = st.freshVal("cbret", sig.Results())
 	}
 	e.result = &res
+	if res.K == KTuple {
+		for i, f := range res.Fs {
+			e.vars["result"+strconv.Itoa(i)] = f
+		}
+	} else {
+		e.vars["result0"] = res
+	}
 	for _, en := range ct.ensures {
 		st.assume(ex.evalBool(st, en.expr, e))
+	}
+	if !trace {
+		ex.syncPoint(st)
+		k(st, res)
+		return
 	}
 	// ghost trace of callback invocations
 	n := st.region("G!cb#len", "Int")
